@@ -21,6 +21,7 @@ type concState struct {
 	killed         bool
 	killAck        chan struct{}
 	fault          interface{}
+	faultStack     []string
 	SchedDecisions int
 	Spawned        int
 	rwReaders      map[*value]int
@@ -142,7 +143,11 @@ func Explore(prog *ssa.Program, fn *ssa.Function, e *Engine) (infra string) {
 					os.Stderr.Write(debug_Stack())
 				}
 			}
-			infra += " [at " + strings.Join(tail(stackStrings(), 6), " < ") + "]"
+			st := stackStrings()
+			if len(e.faultStack) > 0 {
+				st = e.faultStack
+			}
+			infra += " [at " + strings.Join(tail(st, 8), " < ") + "]"
 		}
 	}()
 	for {
